@@ -183,6 +183,9 @@ func (fs *FS) mkdirAll(dir string) {
 	}
 }
 
+// nameTooLong: file names are limited to 255 bytes (NAME_MAX).
+func nameTooLong(name value) bool { return strLen(name) > 255 }
+
 func (fs *FS) create(dir string, name value) *fsNode {
 	n := &fsNode{dir: dir, name: name, id: fs.nextID}
 	fs.nextID++
